@@ -1492,12 +1492,15 @@ impl Property for C10 {
                     .map(|e| e.path.clone())
                     .collect();
                 let mut kinds: Vec<String> = Vec::new();
+                // marker: some operation makes a path exist that did not exist before
+                let mut creates = false;
                 for op in &scn.ops {
                     match op {
                         Op::Pass | Op::Wait { .. } => {}
                         Op::Edit { path, .. } | Op::Add { path, .. } => {
                             if existing.insert(path.clone()) {
                                 kinds.push("Add".to_owned());
+                                creates = true;
                             } else {
                                 kinds.push("Edit".to_owned());
                             }
@@ -1514,6 +1517,8 @@ impl Property for C10 {
                             if existing.remove(from) {
                                 existing.insert(to.clone());
                             }
+                            // a file (or the files of a directory) appears under a new name
+                            creates = true;
                             kinds.push("Rename".to_owned());
                         }
                         other => kinds.push(op_kind(other).to_owned()),
@@ -1554,6 +1559,9 @@ impl Property for C10 {
                 }
                 if is_in_place(&scn.opts) {
                     kinds.push("InPlace".to_owned());
+                }
+                if creates {
+                    kinds.push("Creates".to_owned());
                 }
                 kinds.sort();
                 kinds
